@@ -175,6 +175,9 @@ func adversaryTask(c *vh.Check, cv ecc.ID, op ops.Op, pat []string, builder stri
 	dom := []*big.Int{big.NewInt(0), big.NewInt(1), big.NewInt(5), new(big.Int).Rsh(field, 1), pm1}
 	if c.Quick() {
 		dom = []*big.Int{big.NewInt(0), big.NewInt(5), pm1}
+		if strings.HasPrefix(op.Name, "Cmp") || op.Name == "AssertIsLessOrEqual" {
+			dom = []*big.Int{big.NewInt(5), pm1} // two full-width decompositions per call: the most expensive tasks
+		}
 	}
 	nv, _ := nvars(pat)
 	var tuples [][]*big.Int
